@@ -308,11 +308,12 @@ def emit_all(emit) -> None:
         rot = [st for st in stmts if isinstance(st, ast.Expr) and isinstance(st.value, ast.Call) and getattr(st.value.func, "attr", "") == "rotate"][0]
         prep = [ast.Assign(targets=[t0], value=v0, lineno=1, col_offset=0), rot]
         rows = []
-        for c in range(-9, 10):
+        big = [sgn * (10**k + r) for k in (3, 6, 9, 12) for r in range(4) for sgn in ((1,) if (k + r) % 2 else (-1,))]
+        for c in list(range(-9, 10)) + big:
             env = {"collections": collections, "range": range, count: c}
             exec(compile(ast.fix_missing_locations(ast.Module(body=prep, type_ignores=[])), "<Face.shift>", "exec"), env)
             rows.append((c, [int(x) for x in env[t0.id]]))
-        emit("c10ShiftIdx", "List (Int × List Nat)", rows, "Face.shift: `indexes` after `deque(range(4)).rotate(count)` for count = -9..9")
+        emit("c10ShiftIdx", "List (Int × List Nat)", rows, "Face.shift: `indexes` after `deque(range(4)).rotate(count)` for count = -9..9 and 16 counts of magnitude 10^3..10^12")
         shifted = [_attr_path(t) for t, v, _ in _assigns(stmts) if isinstance(v, ast.ListComp)]
         emit("c10ShiftLists", "List String", shifted, "Face.shift: the lists re-indexed by `indexes`")
         fr = _fn(Face.reorient)
